@@ -1,6 +1,6 @@
 #!/bin/sh
-# run every registered quick check on /repo, report one line each
+# run every registered quick check on /repo, report one line each; extra args are passed to ./check (e.g. --write-lock)
 cd "$(dirname "$0")"
 for p in $(/venv/bin/python -c "import json;print(' '.join(c['property_id'] for c in json.load(open('MANIFEST.json'))['checks']))"); do
-  ./check $p --tier ${1:-quick} 2>&1 | grep -v "^KNOWN-FINDING\|WARNING conda" | tail -2
+  ./check $p "$@" 2>&1 | grep -v "^KNOWN-FINDING\|WARNING conda" | tail -2
 done
